@@ -24,6 +24,7 @@ func c01Progs() []func() *LazyProgram {
 		func() *LazyProgram { return progNonFatal(5) },
 		func() *LazyProgram { return progMachine() },
 		func() *LazyProgram { return progMachineRejectedStepLeavesTraces() },
+		func() *LazyProgram { return progRejectedAttemptsDecideTheSite() },
 		func() *LazyProgram { return progCustomCleanup() },
 		func() *LazyProgram { return progUniqueCtx("body", BPass) },
 	}
